@@ -218,7 +218,7 @@ def gen_C11(tier, seed):
 def gen_C14(tier, seed):
     g = Gen(seed)
     q = tier == "quick"
-    cf = CFG_LOW + CFG_TOP
+    cf = CFG_LOW + CFG_TOP + CFG_PRE
     reqs = _find_like(g, 200 if q else 2000, ["std", "lf", "ll"], ["ismatch"], cf)
     reqs += _find_like(g, 100 if q else 1000, ["std", "lf", "ll"], ["ismatch"], CFG_ANCH, anch=True)
     reqs += _find_like(g, 200 if q else 2000, ["lf", "ll", "std"], ["find"], cf, earliest=True)
@@ -656,6 +656,46 @@ def gen_C06(tier, seed):
     return {"reqs": reqs, "certs": [], "gen": g, "needs_cpu": True}
 
 
+def gen_C20(tier, seed):
+    g = Gen(seed)
+    q = tier == "quick"
+    allc = ["nc.d.1.0.b", "nc.0.1.1.b", "nc.9.1.1.b", "c.d.1.1.b", "c.0.0.0.b", "c.9.1.1.b", "dfa.d.1.1.u", "dfa.d.0.0.a",
+            "dfa.d.1.0.b", "tnc.d.1.1.u", "tc.3.0.1.a", "tdfa.d.1.1.b", "auto.d.1.1.u", "auto.d.1.1.a", "auto.d.1.1.b",
+            "auto.d.0.0.u"]
+    reqs = []
+    shapes = [[], [b""], [b"", b""], [b"a", b"a", b"a"], [bytes(range(256))], [bytes([i]) for i in range(256)],
+              [b"x" * 300], [b"ab" * 150, b"ab" * 149 + b"a"], [b"a" * k for k in range(1, 40)]]
+    for pats in shapes:
+        for mk in ("std", "lf", "ll"):
+            for fold in (0, 1):
+                kv = {"mk": mk, "pats": hxlist(pats), "cfgs": cfgs(allc)}
+                if fold:
+                    kv["fold"] = 1
+                reqs.append(fmt_req("meta", kv))
+                reqs.append(fmt_req("selfcheck", kv))
+    for _ in range(60 if q else 800):
+        pats = g.pats(kinds=["tiny", "tiny3", "nest", "akb", "suffix_chain", "fanout", "casey", "random_bytes"])
+        kv = {"mk": g.rng.choice(["std", "lf", "ll"]), "pats": hxlist(pats), "cfgs": cfgs(allc)}
+        if g.rng.random() < 0.3:
+            kv["fold"] = 1
+        reqs.append(fmt_req("meta", kv))
+        reqs.append(fmt_req("selfcheck", kv))
+    # the automatic choice switches at 100 patterns
+    for n in (99, 100, 101, 128, 129):
+        pats = [bytes([97 + i % 26, 97 + i // 26, 33]) for i in range(n)]
+        reqs.append(fmt_req("meta", {"mk": "lf", "pats": hxlist(pats), "cfgs": cfgs(allc)}))
+    # large collections (exploration of build totality): up to thousands of patterns x hundreds of bytes
+    sizes = [(300, 20), (1000, 8)] if q else [(300, 20), (1000, 8), (3000, 40), (5000, 300), (2000, 120)]
+    for n, ln in sizes:
+        pats = [bytes(g.rng.randrange(256) for _ in range(g.rng.randint(1, ln))) for _ in range(n)]
+        for mk in ("std", "lf"):
+            kv = {"mk": mk, "pats": hxlist(pats),
+                  "cfgs": cfgs(["nc.d.1.1.b", "c.d.1.1.b", "c.0.0.0.b", "dfa.d.1.1.u", "auto.d.1.1.u", "auto.d.1.1.b"])}
+            reqs.append(fmt_req("meta", kv))
+            reqs.append(fmt_req("selfcheck", kv))
+    return {"reqs": reqs, "certs": [], "gen": g, "needs_consts": ["meta"], "needs_cpu": True}
+
+
 TOP_APIS = ["is_match", "find", "find_overlapping", "find_iter", "find_overlapping_iter", "replace_all",
             "replace_all_bytes", "replace_all_with", "replace_all_with_bytes", "stream_find_iter",
             "try_find", "try_find_overlapping", "try_find_iter", "try_find_overlapping_iter", "try_replace_all",
@@ -697,5 +737,5 @@ def gen_C13(tier, seed):
     return {"reqs": reqs, "certs": [], "gen": g, "exhaustive": True}
 
 
-GENS = {"C13": gen_C13, "C06": gen_C06, "C05": gen_C05, "C10": gen_C10, "C07": gen_C07, "C08": gen_C08, "C18": gen_C18, "C12": gen_C12, "C01": gen_C01, "C02": gen_C02, "C03": gen_C03, "C04": gen_C04, "C09": gen_C09,
+GENS = {"C13": gen_C13, "C20": gen_C20, "C06": gen_C06, "C05": gen_C05, "C10": gen_C10, "C07": gen_C07, "C08": gen_C08, "C18": gen_C18, "C12": gen_C12, "C01": gen_C01, "C02": gen_C02, "C03": gen_C03, "C04": gen_C04, "C09": gen_C09,
         "C11": gen_C11, "C14": gen_C14, "C16": gen_C16}
